@@ -287,15 +287,59 @@ def monitor(case, ilog):
     return None
 
 
+def run_impl(ctx, impl, cases, tag, max_hangs=4):
+    """run the harness over the cases; a hanging case ends the process ("endcase hang"): re-run the rest"""
+    ilog = {}
+    rest = list(cases)
+    hangs = 0
+    while rest:
+        cf = os.path.join(ctx.work, tag + "_impl.txt")
+        conc_check.write_cases(cf, rest)
+        rc, out = vcheck.sh([impl, cf], timeout=900)
+        il = conc_check.parse_logs(out)
+        ilog.update(il)
+        done = 0
+        for k, c in enumerate(rest):
+            if c["id"] in il:
+                done = k + 1
+        if done == 0:
+            break
+        last = il.get(rest[done - 1]["id"])
+        if last is not None and last["end"] == "hang":
+            hangs += 1
+            if hangs >= max_hangs:
+                break
+        rest = rest[done:]
+    return ilog
+
+
 def run_batch(ctx, model, impl, cases, tag):
-    rc1, mlog, rc2, ilog, raw = conc_check.run_both(ctx, model, impl, cases, tag=tag)
-    return mlog, ilog
+    cf = os.path.join(ctx.work, tag + ".txt")
+    conc_check.write_cases(cf, cases)
+    rc1, out1 = vcheck.sh("%s %d < %s" % (model, 20000, cf), timeout=900)
+    return conc_check.parse_logs(out1), run_impl(ctx, impl, cases, tag)
 
 
-def minimise(ctx, impl, case, tag):
-    """greedy: drop operations / shorten the schedule while the monitor still rejects the implementation run"""
+WHAT_LIN = "history of the real VyukovMPMCCycleQueue is not linearizable to a bounded FIFO of the configured capacity (bounded-FIFO linearizability monitor on the implementation log, items drained at quiescence included)"
+WHAT_HANG = "an operation of the real VyukovMPMCCycleQueue does not return within 20000 scheduled steps of a fair (round-robin) schedule; the model terminates on the same program and schedule"
+
+
+def impl_bad(case, i, m=None):
+    """implementation-side oracle -> None | (what, details)"""
+    if i is None:
+        return None
+    bad = monitor(case, i)
+    if bad is not None:
+        return (WHAT_LIN, bad)
+    if i["end"] in ("hang", "fuel") and (m is None or m["end"] == "finished"):
+        return (WHAT_HANG, {"impl_end": i["end"], "pending": [l for l in i["lines"] if " ev inv_" in l][-4:]})
+    return None
+
+
+def minimise(ctx, impl, case, tag, what):
+    """greedy: drop operations / shorten the schedule while the oracle still rejects the implementation run"""
     best = case
-    budget = 40
+    budget = 25
     improved = True
     while improved and budget > 0:
         improved = False
@@ -313,18 +357,31 @@ def minimise(ctx, impl, case, tag):
             c["id"] = "m%d" % k
         if not cands:
             break
-        cf = os.path.join(ctx.work, tag + "_min.txt")
-        conc_check.write_cases(cf, cands)
-        rc, out = vcheck.sh([impl, cf], timeout=300)
-        il = conc_check.parse_logs(out)
         budget -= 1
+        # candidates one batch at a time; a hanging candidate ends the batch: run_impl resumes after it
+        il = run_impl(ctx, impl, cands, tag + "_min", max_hangs=3)
         for c in cands:
-            i = il.get(c["id"])
-            if i is not None and monitor(c, i) is not None:
+            b = impl_bad(c, il.get(c["id"]))
+            if b is not None and b[0] == what:
                 best = c
                 improved = True
                 break
     return best
+
+
+def report(ctx, model, impl, case, bad, extra=None):
+    what, det = bad
+    cm = minimise(ctx, impl, case, "min", what)
+    ml, il = run_batch(ctx, model, impl, [dict(cm, id="min")], "minrun")
+    im = il.get("min"); mm = ml.get("min")
+    b2 = impl_bad(cm, im, mm)
+    obj = {"case": {k: cm[k] for k in ("cfg", "threads", "sched")}, "impl_log": im["lines"] if im else None,
+           "observed": b2[1] if b2 else det, "model_log_same_case": mm["lines"] if mm else None,
+           "first_divergence_model_vs_impl": compare(mm, im) if (mm and im) else None,
+           "unminimised_case": {k: case[k] for k in ("cfg", "threads", "sched")}}
+    if extra:
+        obj.update(extra)
+    ctx.violation(what, obj)
 
 
 def run(ctx):
@@ -332,23 +389,29 @@ def run(ctx):
     ctx.coq_evidence(res)
     model = conc_check.build_model(ctx, "Extract_Vyukov.v")
     impl = vcheck.cxx_build(os.path.join(vcheck.VERIF, "harness/C07/main.cpp"), os.path.join(ctx.work, "harness"), hook=True, link_cds=False)
+    trusted = vcheck.STD_TRUSTED + ["hook layer: khizmax_libcds_verif::atomic<T>, baton scheduler, event log (hooks/include)", "ocaml/conc_main.ml event printer",
+                                    "checks/C07.py: log normalisation and the Python bounded-FIFO linearizability monitor (failing-input search only)"]
+    assumptions = ["sequential consistency: memory_order arguments are not modelled", "compare_exchange_weak never fails spuriously under the hook",
+                   "back-off (cds::backoff::empty in the harness traits) is not a scheduling point",
+                   "capacity is a power of two >= 2 (asserted by the constructor only without NDEBUG)",
+                   "fewer than 2^62 - capacity successful enqueue claims (position counters do not wrap)"]
 
     if ctx.replay:
         rp = json.load(open(ctx.replay))
         c = rp.get("case")
         if c is None:
-            ctx.log("replay file carries no case"); return ctx.finish(vcheck.STD_TRUSTED)
+            ctx.log("replay file carries no case"); return ctx.finish(trusted, assumptions)
         c["id"] = "replay"
         mlog, ilog = run_batch(ctx, model, impl, [c], "replay")
         i = ilog.get("replay"); m = mlog.get("replay")
-        bad = monitor(c, i) if i else None
+        bad = impl_bad(c, i, m)
         d = compare(m, i) if (m and i) else {"index": -1}
-        ctx.log("replay: monitor %s, correspondence %s" % ("REJECTS" if bad else "accepts", "DIVERGES at %s" % d["index"] if d else "agrees"))
+        ctx.log("replay: oracle %s, correspondence %s" % ("REJECTS (%s)" % bad[0][:60] if bad else "accepts", "DIVERGES at %s" % d["index"] if d else "agrees"))
         if bad:
-            ctx.violation("history of the real VyukovMPMCCycleQueue is not linearizable to a bounded FIFO (replay)", {"case": c, "impl_log": i["lines"], "monitor": bad})
+            ctx.violation(bad[0] + " (replay)", {"case": c, "impl_log": i["lines"], "observed": bad[1]})
         elif d:
             ctx.violation("step correspondence LV.Model.Vyukov / vyukov_mpmc_cycle_queue.h diverges (replay)", {"case": c, "first_divergence": d}, no_input=True)
-        return ctx.finish(vcheck.STD_TRUSTED)
+        return ctx.finish(trusted, assumptions)
 
     n = 2500 if ctx.thorough() else 500
     nstall = 2 if ctx.thorough() else 1
@@ -373,12 +436,15 @@ def run(ctx):
     mlog.update(mlog2); ilog.update(ilog2)
     cases += stalls
 
-    shapes = set(); nontrivial = set(); diverged = 0; steps = 0; first_div = None; mon_bad = 0
+    shapes = set(); nontrivial = set(); diverged = 0; steps = 0; first_div = None; nbad = 0; not_run = 0
     hist = {"enq_ok": 0, "enq_full": 0, "deq_ok": 0, "deq_empty": 0, "front_ok": 0, "front_empty": 0, "pop_ok": 0, "pop_empty": 0,
-            "cas_failed": 0, "opposite_position_loads": 0, "wrapped_ge3": 0, "stall_cases": len(stalls), "fuel": 0,
-            "by_capacity": {}, "by_variant": {}, "with_counter": 0, "histories_checked": 0, "history_undecided": 0}
+            "cas_failed": 0, "wrapped_ge3": 0, "stall_cases": len(stalls), "model_fuel": 0, "impl_fuel_or_hang": 0,
+            "by_capacity": {}, "by_variant": {}, "with_counter": 0, "histories_checked": 0}
     for c in cases:
         m = mlog.get(c["id"]); i = ilog.get(c["id"])
+        if i is None and m is not None:
+            not_run += 1        # harness stopped after repeated hangs
+            continue
         if m is None or i is None:
             diverged += 1
             first_div = first_div or (c, {"index": -1, "model": "<no output>" if m is None else "ok", "impl": "<no output>" if i is None else "ok", "prefix": []})
@@ -393,8 +459,9 @@ def run(ctx):
         hist["with_counter"] += c["cfg"][2]
         nenq = 0; nt = False
         if m["end"] != "finished":
-            hist["fuel"] += 1
-        # object ids: o of the first ld after "inv_enq" is posE etc.; simpler: classify by events
+            hist["model_fuel"] += 1
+        if i["end"] != "finished":
+            hist["impl_fuel_or_hang"] += 1
         for l in m["lines"]:
             if " ev ret_enq 1" in l: hist["enq_ok"] += 1; nenq += 1
             elif " ev ret_enq 0" in l: hist["enq_full"] += 1; nt = True
@@ -414,62 +481,40 @@ def run(ctx):
             nt = True
         if nt:
             nontrivial.add(key)
-        bad = monitor(c, i)
+        bad = impl_bad(c, i, m)
         hist["histories_checked"] += 1
         if bad is not None:
-            mon_bad += 1
-            if mon_bad == 1:
-                cm = minimise(ctx, impl, c, "min")
-                _, il = run_batch(ctx, model, impl, [dict(cm, id="min")], "minrun")
-                im = il.get("min")
-                ctx.violation("history of the real VyukovMPMCCycleQueue is not linearizable to a bounded FIFO of the configured capacity (bounded-FIFO linearizability monitor on the implementation log)",
-                              {"case": cm, "impl_log": im["lines"] if im else None, "monitor": monitor(cm, im) if im else bad, "unminimised_case": c})
+            nbad += 1
+            if bad[0] not in getattr(ctx, "what_count", {}):
+                report(ctx, model, impl, c, bad)
         if d is not None:
             diverged += 1
             if first_div is None:
                 first_div = (c, d)
-    if first_div is not None and mon_bad == 0:
+    if first_div is not None and nbad == 0:
         c, d = first_div
-        # the correspondence broke: search for a non-linearizable implementation history over more seeds
+        # the correspondence broke: search for a failing implementation run over more seeds
         found = False
         rounds = 6 if ctx.thorough() else 3
         for r in range(rounds):
-            more = [gen_case(ctx.rng, 100000 + r * 2000 + k) for k in range(1500)]
-            cf = os.path.join(ctx.work, "search.txt")
-            conc_check.write_cases(cf, more)
-            rc, out = vcheck.sh([impl, cf], timeout=600)
-            il = conc_check.parse_logs(out)
+            more = [gen_case(ctx.rng, 100000 + r * 2000 + k) for k in range(1200)]
+            il = run_impl(ctx, impl, more, "search")
             extra = []
             for c2 in more:
                 i2 = il.get(c2["id"])
-                if i2 is None:
-                    continue
-                bad = monitor(c2, i2)
-                if bad is None and len(extra) < 1500:
-                    extra += stall_variants(ctx.rng, c2, i2["lines"], 1)
+                bad = impl_bad(c2, i2)
                 if bad is not None:
-                    cm = minimise(ctx, impl, c2, "min")
-                    _, il3 = run_batch(ctx, model, impl, [dict(cm, id="min")], "minrun")
-                    im = il3.get("min")
-                    ctx.violation("history of the real VyukovMPMCCycleQueue is not linearizable to a bounded FIFO of the configured capacity (bounded-FIFO linearizability monitor on the implementation log)",
-                                  {"case": cm, "impl_log": im["lines"] if im else None, "monitor": monitor(cm, im) if im else bad, "unminimised_case": c2,
-                                   "correspondence_first_divergence": d, "correspondence_case": c})
+                    report(ctx, model, impl, c2, bad, {"correspondence_first_divergence": d, "correspondence_case": {k: c[k] for k in ("cfg", "threads", "sched")}})
                     found = True
                     break
+                if i2 is not None and len(extra) < 1200:
+                    extra += stall_variants(ctx.rng, c2, i2["lines"], 1)
             if not found and extra:
-                conc_check.write_cases(cf, extra)
-                rc, out = vcheck.sh([impl, cf], timeout=600)
-                il = conc_check.parse_logs(out)
+                il = run_impl(ctx, impl, extra, "search2")
                 for c2 in extra:
-                    i2 = il.get(c2["id"])
-                    bad = monitor(c2, i2) if i2 else None
+                    bad = impl_bad(c2, il.get(c2["id"]))
                     if bad is not None:
-                        cm = minimise(ctx, impl, c2, "min")
-                        _, il3 = run_batch(ctx, model, impl, [dict(cm, id="min")], "minrun")
-                        im = il3.get("min")
-                        ctx.violation("history of the real VyukovMPMCCycleQueue is not linearizable to a bounded FIFO of the configured capacity (bounded-FIFO linearizability monitor on the implementation log)",
-                                      {"case": cm, "impl_log": im["lines"] if im else None, "monitor": monitor(cm, im) if im else bad, "unminimised_case": c2,
-                                       "correspondence_first_divergence": d, "correspondence_case": c})
+                        report(ctx, model, impl, c2, bad, {"correspondence_first_divergence": d, "correspondence_case": {k: c[k] for k in ("cfg", "threads", "sched")}})
                         found = True
                         break
             if found:
@@ -477,22 +522,17 @@ def run(ctx):
         if not found:
             ctx.violation("step correspondence between LV.Model.Vyukov and cds/container/vyukov_mpmc_cycle_queue.h no longer holds",
                           {"correspondence": "Model/Vyukov.v vs cds::container::VyukovMPMCCycleQueue / cds::intrusive::VyukovMPMCCycleQueue",
-                           "case": c, "first_divergence": d}, no_input=True)
+                           "case": {k: c[k] for k in ("cfg", "threads", "sched")}, "first_divergence": d}, no_input=True)
     if not res.ok:
         ctx.violation("Coq obligations of C07 do not check: %s" % (res.failed[:2],), {"theorem": [f[2] for f in res.failed], "errors": res.failed[:3]}, no_input=True)
     ctx.coverage.update({
-        "evaluations": len(cases), "distinct_nontrivial": len(nontrivial),
+        "evaluations": len(cases) - not_run, "distinct_nontrivial": len(nontrivial),
         "rule": "program x schedule pairs: capacities 2/4/8; container (dynamic, static-4 buffers) and intrusive variants; item counter on/off; shapes: ring wrapped >= 3 times, full boundary, empty boundary, single consumer with front/pop_front, mixed; schedules uniform / bursty / run-then-switch plus a second pass that replays a run up to a successful position CAS and then stalls that thread before its sequence publish; all from one splitmix64 stream. distinct = distinct (cfg, model event log); non-trivial = the run has a failed CAS, a failed (full/empty) operation, >= 3 ring wraps, or a thread stalled between CAS and publish",
         "distinct_event_logs": len(shapes), "impl_steps_compared": steps, "diverged": diverged, "corpus_cases": ncorpus,
-        "traces_validated_against_impl": len(cases) - diverged, "histograms": hist,
-        "impl_histories_rejected_by_monitor": mon_bad,
+        "traces_validated_against_impl": len(cases) - not_run - diverged, "histograms": hist,
+        "impl_runs_rejected_by_oracle": nbad, "cases_not_run_after_repeated_hangs": not_run,
         "samples": [{k: c[k] for k in ("id", "cfg", "threads", "sched")} for c in (cases[ncorpus:ncorpus + 2] + stalls[:1])],
         "modelled": "cds::container::VyukovMPMCCycleQueue::{enqueue_with,dequeue_with,front,pop_front,empty,size} (the intrusive queue is the same code at T*)",
         "values_compared": "every atomic access: kind, object, ok flag, value read, value written",
     })
-    return ctx.finish(vcheck.STD_TRUSTED + ["hook layer: khizmax_libcds_verif::atomic<T>, baton scheduler, event log (hooks/include)", "ocaml/conc_main.ml event printer",
-                                            "checks/C07.py: log normalisation and the Python bounded-FIFO linearizability monitor (failing-input search only)"],
-                      ["sequential consistency: memory_order arguments are not modelled", "compare_exchange_weak never fails spuriously under the hook",
-                       "back-off (cds::backoff::empty in the harness traits) is not a scheduling point",
-                       "capacity is a power of two >= 2 (asserted by the constructor only without NDEBUG)",
-                       "fewer than 2^62 - capacity successful enqueue claims (position counters do not wrap)"])
+    return ctx.finish(trusted, assumptions)
